@@ -4,7 +4,7 @@
    unproved oracle.  The crypto functions are the finite tables of the case. *)
 From Coq Require Import List ZArith Bool Lia.
 From GZgen Require Import C18Consts.
-From GZ Require Import Lib.CheckLib C18.Model C18.Proofs C18.Server C18.ProofsServer C18.Check.
+From GZ Require Import Lib.CheckLib C18.Model C18.Proofs C18.ProofsCrypt C18.Server C18.ProofsServer C18.Check.
 Import ListNotations.
 Open Scope Z_scope.
 
@@ -179,8 +179,47 @@ Proof.
   - intros sc Es St Ck. rewrite Es, St, Ck in S. cbn [andb] in S. apply signed_spec_srv_sound. exact S.
 Qed.
 
+(* ---- payload sizes ("big" cases) -------------------------------------------- *)
+
+(* The prediction used for the big cases is what crypt_handler does with ANY honestly encrypted
+   payload: over the limit -> 400 without running; else the handler runs on the plaintext and the
+   response is the encryption of what it writes.  And the padded length is the closed form used
+   by big_wire_len. *)
+Theorem big_model_is_crypt_handler :
+  forall ulfix aes_ok (E D : Z -> list Z -> list Z) b64enc b64dec,
+  (forall key b, length b = bsn -> D key (E key b) = b) ->
+  (forall key b, length b = bsn -> length (E key b) = bsn) ->
+  (forall x, b64dec (b64enc x) = Some x) ->
+  (forall x, x <> [] -> b64enc x <> []) ->
+  forall limit key p c resp,
+  aes_ok key = true -> ecb_encrypt aes_ok E key p = Ok c ->
+  crypt_handler ulfix aes_ok E D b64enc b64dec limit key (len (b64enc c)) (b64enc c) resp =
+  if big_exceeds limit (len (b64enc c)) then mkHout false 400 [] [] false
+  else mkHout true 200 p (flush aes_ok E b64enc key resp) false.
+Proof.
+  intros ulfix aes_ok E D b64enc b64dec DE Elen B1 B2 limit key p c resp K Ec.
+  unfold big_exceeds. destruct ((0 <? limit) && (limit <? len (b64enc c))) eqn:X.
+  - assert (W : 0 < len (b64enc c)) by (eapply honest_wire_nonempty; eauto).
+    unfold crypt_handler.
+    replace (if ulfix then len (b64enc c) =? 0 else len (b64enc c) <=? 0) with false.
+    2:{ symmetry. destruct ulfix; [apply Z.eqb_neq|apply Z.leb_gt]; lia. }
+    replace (0 <? len (b64enc c)) with true by (symmetry; apply Z.ltb_lt; lia).
+    rewrite X. reflexivity.
+  - apply andb_false_iff in X.
+    apply (body_roundtrip_request aes_ok E D b64enc b64dec DE Elen B1 B2 ulfix limit key p c resp K Ec).
+    destruct X as [X|X]; [left; apply Z.ltb_ge in X; lia|right; apply Z.ltb_ge in X; lia].
+Qed.
+
+Theorem padded_len_is_len_pad : forall p, len (pad p) = padded_len (len p).
+Proof.
+  intros p. rewrite ProofsCrypt.pad_len. unfold pad_amount, padded_len, bs.
+  pose proof (Z.div_mod (len p) 16 ltac:(lia)). lia.
+Qed.
+
 Print Assumptions jwt_valid_spec_iff_accepts.
 Print Assumptions spec_key_is_find_key.
 Print Assumptions signed_spec_srv_sound.
 Print Assumptions signed_spec_srv_complete.
 Print Assumptions prop_srv1_sound.
+Print Assumptions big_model_is_crypt_handler.
+Print Assumptions padded_len_is_len_pad.
